@@ -1,4 +1,130 @@
-(* C03 -- property theorems only. *)
-From V Require Import Base.Field C03.CurveExec.
-Example C03_placeholder : sw_is_zero (ZpOps 13) (sw_zero (ZpOps 13)) = true.
-Proof. vm_compute. reflexivity. Qed.
+(* C03 -- property theorems only: pinned statements, each closed by `exact`.
+   [good_field F]: F is a field (field_theory, Leibniz equality), feqb decides equality,
+   1 + 1 <> 0.  [jac_on]/[aff_on]: the (affine image of the) point satisfies
+   y^2 = x^3 + a x + b.  [te_valid]: Z <> 0 and T Z = X Y.  [te_dens_ok]: the two
+   denominators 1 +- d x1 x2 y1 y2 of the Edwards law are non-zero. *)
+From V Require Import Base.Field C03.CurveExec C03.SWProofs C03.TEProofs C03.FieldHyp.
+
+(* ---- short Weierstrass, Jacobian coordinates ---- *)
+Theorem C03_sw_add : forall T (F : Fops T) (a b : T), good_field F ->
+  forall P Q, jac_on F a b P -> jac_on F a b Q ->
+  sw_to_affine F (sw_add F a P Q) = aff_add_sw F a (sw_to_affine F P) (sw_to_affine F Q).
+Proof. exact (fun T F a b G => sw_add_correct F a b (gf_th F G) (gf_eqb F G) (gf_two F G)). Qed.
+Theorem C03_sw_madd : forall T (F : Fops T) (a b : T), good_field F ->
+  forall P Q, jac_on F a b P -> aff_on F a b Q ->
+  sw_to_affine F (sw_madd F a P Q) = aff_add_sw F a (sw_to_affine F P) Q.
+Proof. exact (fun T F a b G => sw_madd_correct F a b (gf_th F G) (gf_eqb F G) (gf_two F G)). Qed.
+Theorem C03_sw_double : forall T (F : Fops T) (a : T), good_field F ->
+  forall P, sw_to_affine F (sw_double F a P) = aff_add_sw F a (sw_to_affine F P) (sw_to_affine F P).
+Proof. exact (fun T F a G => sw_double_correct F a (gf_th F G) (gf_eqb F G) (gf_two F G)). Qed.
+Theorem C03_sw_neg : forall T (F : Fops T), good_field F ->
+  forall P, sw_to_affine F (sw_neg F P) = aff_neg_sw F (sw_to_affine F P).
+Proof. exact (fun T F G => sw_neg_correct F (gf_th F G) (gf_eqb F G)). Qed.
+Theorem C03_sw_sub : forall T (F : Fops T) (a b : T), good_field F ->
+  forall P Q, jac_on F a b P -> jac_on F a b Q ->
+  sw_to_affine F (sw_sub F a P Q) = aff_add_sw F a (sw_to_affine F P) (aff_neg_sw F (sw_to_affine F Q)).
+Proof. exact (fun T F a b G => sw_sub_correct F a b (gf_th F G) (gf_eqb F G) (gf_two F G)). Qed.
+Theorem C03_sw_msub : forall T (F : Fops T) (a b : T), good_field F ->
+  forall P Q, jac_on F a b P -> aff_on F a b Q ->
+  sw_to_affine F (sw_msub F a P Q) = aff_add_sw F a (sw_to_affine F P) (aff_neg_sw F Q).
+Proof. exact (fun T F a b G => sw_msub_correct F a b (gf_th F G) (gf_eqb F G) (gf_two F G)). Qed.
+Theorem C03_sw_sum : forall T (F : Fops T) (a b : T), good_field F ->
+  forall l P, jac_on F a b P -> Forall (aff_on F a b) l ->
+  sw_to_affine F (fold_left (sw_madd F a) l P) = fold_left (aff_add_sw F a) l (sw_to_affine F P)
+  /\ jac_on F a b (fold_left (sw_madd F a) l P).
+Proof. exact (fun T F a b G => sw_sum_correct F a b (gf_th F G) (gf_eqb F G) (gf_two F G)). Qed.
+(* results stay on the curve *)
+Theorem C03_sw_affine_law_closed : forall T (F : Fops T) (a b : T), good_field F ->
+  forall A B, aff_on F a b A -> aff_on F a b B -> aff_on F a b (aff_add_sw F a A B).
+Proof. exact (fun T F a b G => aff_add_sw_on F a b (gf_th F G) (gf_eqb F G) (gf_two F G)). Qed.
+Theorem C03_sw_add_on_curve : forall T (F : Fops T) (a b : T), good_field F ->
+  forall P Q, jac_on F a b P -> jac_on F a b Q -> jac_on F a b (sw_add F a P Q).
+Proof. exact (fun T F a b G => sw_add_on_curve F a b (gf_th F G) (gf_eqb F G) (gf_two F G)). Qed.
+Theorem C03_sw_madd_on_curve : forall T (F : Fops T) (a b : T), good_field F ->
+  forall P Q, jac_on F a b P -> aff_on F a b Q -> jac_on F a b (sw_madd F a P Q).
+Proof. exact (fun T F a b G => sw_madd_on_curve F a b (gf_th F G) (gf_eqb F G) (gf_two F G)). Qed.
+Theorem C03_sw_double_on_curve : forall T (F : Fops T) (a b : T), good_field F ->
+  forall P, jac_on F a b P -> jac_on F a b (sw_double F a P).
+Proof. exact (fun T F a b G => sw_double_on_curve F a b (gf_th F G) (gf_eqb F G) (gf_two F G)). Qed.
+(* equality does not depend on the representative; conversions; is_on_curve; batch normalisation *)
+Theorem C03_sw_eq_iff_same_affine : forall T (F : Fops T), good_field F ->
+  forall P Q, sw_eqb F P Q = true <-> sw_to_affine F P = sw_to_affine F Q.
+Proof. exact (fun T F G => sw_eqb_spec F (gf_th F G) (gf_eqb F G)). Qed.
+Theorem C03_sw_to_affine : forall T (F : Fops T), good_field F ->
+  forall x y z, sw_to_affine F (x, y, z) =
+    if feqb F z (f0 F) then None else Some (fdiv F x (fmul F z z), fdiv F y (fmul F (fmul F z z) z)).
+Proof. exact (fun T F G => sw_to_affine_gen F (gf_th F G) (gf_eqb F G)). Qed.
+Theorem C03_sw_roundtrip_affine : forall T (F : Fops T), good_field F ->
+  forall A, sw_to_affine F (sw_of_affine F A) = A.
+Proof. exact (fun T F G => sw_roundtrip_affine F (gf_th F G) (gf_eqb F G)). Qed.
+Theorem C03_sw_roundtrip_projective : forall T (F : Fops T), good_field F ->
+  forall P, sw_eqb F (sw_of_affine F (sw_to_affine F P)) P = true.
+Proof. exact (fun T F G => sw_roundtrip_jac F (gf_th F G) (gf_eqb F G)). Qed.
+Theorem C03_sw_is_on_curve : forall T (F : Fops T) (a b : T), good_field F ->
+  forall A, sw_aff_on_curve F a b A = true <-> aff_on F a b A.
+Proof. exact (fun T F a b G => sw_aff_on_curve_spec F a b (gf_th F G) (gf_eqb F G)). Qed.
+Theorem C03_batch_inversion : forall T (F : Fops T), good_field F ->
+  forall v, batch_inversion F v = map (fun f => if feqb F f (f0 F) then f else fdiv F (f1 F) f) v.
+Proof. exact (fun T F G => batch_inversion_spec F (gf_th F G) (gf_eqb F G)). Qed.
+Theorem C03_sw_normalize_batch : forall T (F : Fops T), good_field F ->
+  forall v, sw_normalize_batch F v = map (sw_to_affine F) v.
+Proof. exact (fun T F G => sw_normalize_batch_spec F (gf_th F G) (gf_eqb F G)). Qed.
+
+(* ---- twisted Edwards, extended coordinates ---- *)
+Theorem C03_te_add : forall T (F : Fops T) (a d : T), good_field F ->
+  forall P Q, te_valid F P -> te_valid F Q -> te_dens_ok F d (te_to_affine F P) (te_to_affine F Q) ->
+  te_valid F (te_add F a d P Q) /\
+  te_to_affine F (te_add F a d P Q) = aff_add_te F a d (te_to_affine F P) (te_to_affine F Q).
+Proof. exact (fun T F a d G => te_add_correct F a d (gf_th F G) (gf_eqb F G)). Qed.
+Theorem C03_te_madd : forall T (F : Fops T) (a d : T), good_field F ->
+  forall P Q, te_valid F P -> te_dens_ok F d (te_to_affine F P) Q ->
+  te_valid F (te_madd F a d P Q) /\
+  te_to_affine F (te_madd F a d P Q) = aff_add_te F a d (te_to_affine F P) Q.
+Proof. exact (fun T F a d G => te_madd_correct F a d (gf_th F G) (gf_eqb F G)). Qed.
+Theorem C03_te_double : forall T (F : Fops T) (a d : T), good_field F ->
+  forall P, te_valid F P -> te_aff_on F a d (te_to_affine F P) ->
+  te_dens_ok F d (te_to_affine F P) (te_to_affine F P) ->
+  te_valid F (te_double F a P) /\
+  te_to_affine F (te_double F a P) = aff_add_te F a d (te_to_affine F P) (te_to_affine F P).
+Proof. exact (fun T F a d G => te_double_correct F a d (gf_th F G) (gf_eqb F G)). Qed.
+Theorem C03_te_neg : forall T (F : Fops T), good_field F ->
+  forall P, te_valid F P -> te_valid F (te_neg F P) /\ te_to_affine F (te_neg F P) = aff_neg_te F (te_to_affine F P).
+Proof. exact (fun T F G => te_neg_correct F (gf_th F G) (gf_eqb F G)). Qed.
+Theorem C03_te_law_closed : forall T (F : Fops T) (a d : T), good_field F ->
+  forall A B, te_aff_on F a d A -> te_aff_on F a d B -> te_dens_ok F d A B -> te_aff_on F a d (aff_add_te F a d A B).
+Proof. exact (fun T F a d G => aff_add_te_on F a d (gf_th F G)). Qed.
+Theorem C03_te_to_affine : forall T (F : Fops T), good_field F ->
+  forall x y t z, z <> f0 F -> te_to_affine F (x, y, t, z) = (fdiv F x z, fdiv F y z).
+Proof. exact (fun T F G => te_to_affine_spec F (gf_th F G) (gf_eqb F G)). Qed.
+Theorem C03_te_is_zero : forall T (F : Fops T), good_field F ->
+  forall P, te_valid F P -> (te_is_zero F P = true <-> te_to_affine F P = te_aff_zero F).
+Proof. exact (fun T F G => te_is_zero_spec F (gf_th F G) (gf_eqb F G)). Qed.
+Theorem C03_te_eq_iff_same_affine : forall T (F : Fops T), good_field F ->
+  forall P Q, te_valid F P -> te_valid F Q ->
+  (te_eqb F P Q = true <-> te_to_affine F P = te_to_affine F Q).
+Proof. exact (fun T F G => te_eqb_spec F (gf_th F G) (gf_eqb F G)). Qed.
+Theorem C03_te_roundtrip_affine : forall T (F : Fops T), good_field F ->
+  forall A, te_valid F (te_of_affine F A) /\ te_to_affine F (te_of_affine F A) = A.
+Proof. exact (fun T F G => te_roundtrip_affine F (gf_th F G) (gf_eqb F G)). Qed.
+Theorem C03_te_is_on_curve : forall T (F : Fops T) (a d : T), good_field F ->
+  forall A, te_aff_on_curve F a d A = true <-> te_aff_on F a d A.
+Proof. exact (fun T F a d G => te_aff_on_curve_spec F a d (gf_th F G) (gf_eqb F G)). Qed.
+Theorem C03_te_normalize_batch : forall T (F : Fops T), good_field F ->
+  forall v, Forall (fun P : te_ext => snd P <> f0 F) v -> te_normalize_batch F v = map (te_to_affine F) v.
+Proof. exact (fun T F G => te_normalize_batch_spec F (gf_th F G) (gf_eqb F G)). Qed.
+
+(* ---- the hypotheses are satisfiable: the canonical rationals; points of y^2 = x^3 + 1 ---- *)
+Example C03_good_field_example : good_field QcOps.
+Proof. exact QcOps_good. Qed.
+Example C03_sw_on_curve_example :
+  jac_on QcOps (q 0) (q 1) (q 2, q 3, q 1) /\ jac_on QcOps (q 0) (q 1) (q 0, q 1, q 1)
+  /\ aff_on QcOps (q 0) (q 1) (Some (q 2, q 3)).
+Proof. exact ex_sw_on. Qed.
+Example C03_te_valid_example : te_valid QcOps (q 0, q 3, q 0, q 3) /\
+  te_dens_ok QcOps (q 2) (te_to_affine QcOps (q 0, q 3, q 0, q 3)) (te_to_affine QcOps (q 0, q 3, q 0, q 3)).
+Proof. exact ex_te_valid. Qed.
+(* executable instance used by the correspondence: P + (-P), P + P on y^2 = x^3 + 2 over F_13 *)
+Example C03_run_example :
+  sw_to_affine (ZpOps 13) (sw_add (ZpOps 13) 0 (1, 4, 1) (4, 6, 2)) = Some (2, 7)
+  /\ sw_to_affine (ZpOps 13) (sw_add (ZpOps 13) 0 (1, 4, 1) (4, 7, 2)) = None.
+Proof. vm_compute. split; reflexivity. Qed.
